@@ -105,10 +105,19 @@ func (rl *TokenBucketRateLimiter) cleanupRoutine() {
 	}
 }
 
-// cleanup removes buckets that haven't been used for more than 1 hour
+// cleanup removes buckets that haven't been used for more than 1 hour (or, if longer, the time a bucket needs to refill completely)
 func (rl *TokenBucketRateLimiter) cleanup() {
 	now := time.Now()
-	cutoff := now.Add(-time.Hour)
+	// A dropped bucket is recreated full. That is only equivalent to keeping it
+	// if it would have refilled completely in the meantime, so never drop a
+	// bucket before max_tokens refill periods have passed (with long refill
+	// periods one hour is not enough, and a client could spend a second full
+	// burst right after the cleanup).
+	idle := time.Hour
+	if full := rl.refillRate * time.Duration(rl.maxTokens); full > idle {
+		idle = full
+	}
+	cutoff := now.Add(-idle)
 
 	// Use sync.Map's Range method for iteration
 	rl.buckets.Range(func(key, value interface{}) bool {
